@@ -241,6 +241,20 @@ func onTempView(src string) string {
 	return reFromA.ReplaceAllString(src, "FROM tv a")
 }
 
+// c14MultiWorker is set for the evaluation in progress: with several workers
+// the row whose error is reported is the one whose worker fails first, and
+// different rows may fail with differently shaped messages (a JSON query that
+// does not parse vs. a JSON text that does not parse), so only the fact of the
+// failure is compared; with one worker the class of the message is compared too.
+var c14MultiWorker bool
+
+func c14ErrClass(s string) string {
+	if c14MultiWorker {
+		return "(some row failed)"
+	}
+	return errClass(s)
+}
+
 type c14 struct{}
 
 func init() { Register(c14{}) }
@@ -398,7 +412,7 @@ func shellSections(out string) (map[string]string, []string, bool) {
 			// which row's error is reported first depends on the worker schedule: keep
 			// the class of the error, not the row-specific details
 			f := strings.SplitN(l, " ", 3)
-			secs[f[1]] += "ERROR " + errClass(f[2]) + "\n"
+			secs[f[1]] += "ERROR " + c14ErrClass(f[2]) + "\n"
 		default:
 			if cur != "" {
 				secs[cur] += l + "\n"
@@ -414,6 +428,7 @@ func (c14) Eval(t *testing.T, c *Case, dec func(int) *Decider) *Outcome {
 	mustUnJSON(sc.Meta["workload"], &meta)
 	o := &Outcome{}
 	const prop = "C14"
+	c14MultiWorker = sc.Procs[0].CPU > 1
 	policies := []string{"fresh", "lifo", "fifo", "random", "poison"}
 	results := map[string]string{}
 	for i, pol := range policies {
@@ -600,7 +615,7 @@ func normErrLines(s string) string {
 		if strings.HasPrefix(l, "@ERR ") {
 			f := strings.SplitN(l, " ", 3)
 			if len(f) == 3 {
-				lines[i] = f[0] + " " + f[1] + " " + errClass(f[2])
+				lines[i] = f[0] + " " + f[1] + " " + c14ErrClass(f[2])
 			}
 		}
 	}
